@@ -518,6 +518,16 @@ func init() {
 				g.do("tadderrlist " + t + " nil," + e)
 				raised[-1] = append(raised[-1], e)
 			}
+			if c%10 == 9 {
+				// a long list, nil-free, onto a container that already holds some: more than doubles it
+				var l []string
+				for j := 0; j < 11+r.n(40); j++ {
+					e := newErr()
+					l = append(l, e)
+					raised[-1] = append(raised[-1], e)
+				}
+				g.do("tadderrlist " + t + " " + strings.Join(l, ","))
+			}
 			if r.chance(1, 4) {
 				// the list handed out by Errors(), extended by the caller and handed back: everything
 				// already recorded is recorded once more, then the new one
